@@ -95,7 +95,7 @@ def weight(a, strategy, gene_level):
     return 0
 
 
-def h_resolve(n, n_iso_choices=3):
+def h_resolve(n, n_iso_choices=3, check_contribution=True):
     def fn(g):
         recs = [mk_record(g, i, n_iso_choices) for i in range(n)]
         orig = [copy_record(a) for a in recs]
@@ -156,7 +156,7 @@ def h_resolve(n, n_iso_choices=3):
                     "tied loci are flagged ambiguous (gene level)")
         # total contribution of the read to a count table
         ex = g.excl({"C08-tied-loci-counted-once-each": n_kept >= 2})
-        for strategy in ("unique_only", "with_ambiguous", "all"):
+        for strategy in (("unique_only", "with_ambiguous", "all") if check_contribution else ()):
             for gene_level in (False, True):
                 tot = SUM([ITE(kept[i], weight(recs[i], strategy, gene_level), 0) for i in range(n)])
                 g.check(tot <= 1, "the read contributes at most 1 to a count table", exclude=ex,
